@@ -1,5 +1,6 @@
 import PgFdr.Json
 import PgFdr.Model.C09
+import PgFdr.Model.C09Maps
 namespace PgFdr.Driver
 open Lean PgFdr
 
@@ -128,11 +129,73 @@ def handleMapread (j : Json) : R Json := do
 def handleSwap (j : Json) : R Json := do
   pure (obj [("decoy", oS (decoySeq (← jS (← jget j "special")) (← jS (← jget j "seq"))))])
 
+def mapsErrName : MapsErr → String
+  | .map e => errName e
+  | .unequalLengths => "unequal_lengths"
+  | .noInput => "no_input"
+
+/-- a `DigestionParams` object: the constructor arguments (`jparams`) and the attributes assigned afterwards,
+    `"db"`: null | "target" | "decoy" | "concat", `"met"`: null | bool (`methionine_cleavage`) -/
+def jparamsObj (j : Json) : R Params := do
+  let p ← jparams j
+  let p ← match (← jget j "db") with
+    | .null => pure p
+    | d => do
+      match (← jdb d) with
+      | none => .error "unknown db"
+      | some db => pure { p with db := db }
+  match (← jget j "met") with
+  | .null => pure p
+  | m => do pure { p with met := ← jbool m }
+
+def jargLists (j : Json) : R ArgLists := do
+  pure { enzyme := ← jstrs (← jget j "enzyme"), digestion := ← jstrs (← jget j "digestion"),
+         minL := ← jlist jnat (← jget j "min"), maxL := ← jlist jnat (← jget j "max"),
+         mc := ← jlist jnat (← jget j "mc"), special := ← jstrs (← jget j "special"),
+         containsDecoys := ← jbool (← jget j "contains_decoys") }
+
+/-- what writing a map with the `--peptide_protein_map` writer and reading the file returns -/
+def oFileBack (m : PMap) : Json :=
+  match writeMap m with
+  | .error e => ofErr (errName e)
+  | .ok t => match readMap t with
+    | .error e => ofErr (errName e)
+    | .ok b => oMap b
+
+/-- the list of maps, one per digestion parameter set / per map file:
+    `{"op":"pepmaps","fasta":[[line…]…],"mapfiles":[text…],"groups":null|[[id…]…],"lookups":[pep…],"file_back":bool,
+      "args":{"enzyme":[…],"digestion":[…],"min":[…],"max":[…],"mc":[…],"special":[…],"contains_decoys",
+              "gene_level","pseudo","uniprot"}        (get_peptide_to_protein_maps_from_args)
+      | "objs":{"params":[{…attributes…}…],"parse_id":…}   (get_peptide_to_protein_maps)}`
+    → `{"maps":[{"map","seqs","lookups"(,"file_back")}…]}` or `{"err":…}` -/
+def handlePepmaps (j : Json) : R Json := do
+  let fasta ← jfiles (← jget j "fasta")
+  let mapfiles ← jlist jS (← jget j "mapfiles")
+  let groups ← match (← jget j "groups") with
+    | .null => pure none
+    | g => do pure (some (← jlist (jlist jS) g))
+  let lookups ← jlist jS (← jget j "lookups")
+  let fileBack ← jbool (← jget j "file_back")
+  let res ← match jgetOpt j "args" with
+    | some a => do
+      pure (pepMapsFromArgs (← jargLists a) (← jbool (← jget a "gene_level")) (← jbool (← jget a "pseudo"))
+        (← jbool (← jget a "uniprot")) fasta mapfiles groups)
+    | none => do
+      let o ← jget j "objs"
+      pure (pepMapsTop (← jparse (← jget o "parse_id")) fasta mapfiles groups (← jlist jparamsObj (← jget o "params")))
+  match res with
+  | .error e => pure (ofErr (mapsErrName e))
+  | .ok ms =>
+    pure (obj [("maps", ofList (fun (m : PMap × SeqMap) =>
+      let base := [("map", oMap m.1), ("seqs", if !m.2.isEmpty then oSeqs m.2 else Json.null),
+                   ("lookups", ofList (fun q => oLookup (getProteins m q)) lookups)]
+      obj (if fileBack then base ++ [("file_back", oFileBack m.1)] else base)) ms)])
+
 end C09D
 
 /-- protocol handlers of property C09: (op name, handler) -/
 def handlersC09 : List (String × (Json → R Json)) :=
   [("pepmap", C09D.handlePepmap), ("pepmap1", C09D.handlePepmap1), ("fasta", C09D.handleFasta),
    ("ibaq", C09D.handleIbaq), ("mapfile", C09D.handleMapfile), ("mapread", C09D.handleMapread),
-   ("swap", C09D.handleSwap)]
+   ("swap", C09D.handleSwap), ("pepmaps", C09D.handlePepmaps)]
 end PgFdr.Driver
